@@ -182,6 +182,13 @@ func (i *interpreter) zzCall(fr *frame, fn *ssa.Function, args []value) value {
 	case "Reach":
 		px.res.labels[strArg(args[0])] = true
 		return nil
+	case "NewProcess":
+		// a fresh OS process: package-level state is gone, initialisers run
+		// again, and every per-process source of randomness yields new values
+		i.globals = map[*ssa.Global]*value{}
+		i.initRun = map[*ssa.Package]bool{}
+		px.stubsUsed["zz.NewProcess => package-level variables reset, package initialisers re-run, per-process random sources (hash/maphash.MakeSeed) yield fresh values"] = true
+		return nil
 	case "MayPanic":
 		px.mayPanic = strArg(args[0])
 		return nil
@@ -367,6 +374,12 @@ func init() {
 		"github.com/grailbio/bigslice/frame.typedmemmove":   intTypedMemmove,
 		"github.com/grailbio/bigslice/internal/zero.Unsafe": intZeroUnsafe,
 		"github.com/spaolacci/murmur3.Sum32WithSeed":        intMurmur,
+		"hash/maphash.MakeSeed": func(fr *frame, a []value) value {
+			fr.i.px.stubsUsed["hash/maphash.MakeSeed => an arbitrary per-process value"] = true
+			return structure{fr.i.px.fresh("process-random maphash seed", kBV, 64)}
+		},
+		"hash/maphash.String": intMaphash,
+		"hash/maphash.Bytes":  intMaphash,
 		"github.com/spaolacci/murmur3.Sum32":                func(fr *frame, a []value) value { return intMurmur(fr, []value{a[0], uint32(0)}) },
 		"(*golang.org/x/sync/errgroup.Group).Go":   intErrgroupGo,
 		"(*golang.org/x/sync/errgroup.Group).Wait": intErrgroupWait,
@@ -1043,6 +1056,44 @@ func intMurmur(fr *frame, a []value) value {
 	}
 	px.stubsUsed["murmur3.Sum32WithSeed => uninterpreted function of (bytes, seed)"] = true
 	return px.mk(kBV, 32, "("+name+" "+strings.Join(args, " ")+")")
+}
+
+// intMaphash models hash/maphash.String/Bytes as an uninterpreted function of
+// the (per-process) seed and the bytes.
+func intMaphash(fr *frame, a []value) value {
+	px := fr.i.px
+	var bs []value
+	switch x := a[1].(type) {
+	case []value:
+		bs = x
+	case string:
+		for k := 0; k < len(x); k++ {
+			bs = append(bs, x[k])
+		}
+	case symstr:
+		for k := 0; k < len(x.prefix); k++ {
+			bs = append(bs, x.prefix[k])
+		}
+		bs = append(bs, uint8(1), px.mk(kBV, 8, "(bvadd "+x.id.t+" "+bvLit('a', 8)+")"))
+	default:
+		panic(unsupported{fmt.Sprintf("maphash of %T", a[1])})
+	}
+	seed := a[0].(structure)[0]
+	args := []string{toSym(seed, sym{kBV, 64, ""}).t}
+	sorts := []string{"(_ BitVec 64)"}
+	for _, b := range bs {
+		args = append(args, toSym(b, sym{kBV, 8, ""}).t)
+		sorts = append(sorts, "(_ BitVec 8)")
+	}
+	key := "maphash/" + strconv.Itoa(len(bs))
+	name, ok := px.ufDecl[key]
+	if !ok {
+		name = "uf_maphash_" + strconv.Itoa(len(bs))
+		px.ufDecl[key] = name
+		px.emit("(declare-fun " + name + " (" + strings.Join(sorts, " ") + ") (_ BitVec 64))")
+	}
+	px.stubsUsed["hash/maphash.String/Bytes => uninterpreted function of (seed, bytes)"] = true
+	return px.mk(kBV, 64, "("+name+" "+strings.Join(args, " ")+")")
 }
 
 // errgroup, sequentially: Go runs the function at once and remembers the
